@@ -25,10 +25,17 @@ def generate(rng, tier, n):
     cid = 0
     while len(cases) < n:
         c0 = rng.random()
+        forced = None
         if len(cases) == 0:
             # an infoset with more actions than any fixed-size scratch buffer (17 .. 40)
             from ..solvers import needle_tree
             t, st = needle_tree(rng, rng.choice([17, 20, 34, 40]), pl=rng.choice([1, 2]))
+        elif len(cases) == 3:
+            # hidden moves of one player, the other moves blind: her few infosets have nodes in every work item of the
+            # multi-threaded traversal (a lost update there makes the bound too small)
+            from ..solvers import hidden_deal_tree
+            t, st = hidden_deal_tree(rng, outcomes=23, depth=5, actions=2)      # 3 * 8 - 1 deals: one work item each
+            forced = [(40, 8), (40, 5), (20, 12)]
         elif c0 < 0.06:
             # a decision behind a chance branch of probability 1e-17 .. 1e-30 whose payoffs are of the order 1/probability
             from .c01 import jackpot_tree
@@ -41,9 +48,11 @@ def generate(rng, tier, n):
         else:
             t, st = gen_tree(rng, max_nodes=rng.choice([8, 20, 40, 70]), max_depth=rng.choice([3, 5, 6]),
                              p_share=rng.choice([0.5, 0.8]))
-        for _ in range(3):
+        for j_ in range(3):
             T = rng.choice(list(range(1, 21)) + [50, 200])
             threads = rng.choice([1, 1, 2, 3, 4, 8, 16])
+            if forced:
+                T, threads = forced[j_]
             r = rng.choice([0.0, 0.0, 0.05, 0.5, 2.0, 10.0, 100.0])
             cb = CaseBuilder(cid, t, {"stats": st, "T": T, "r": r, "threads": threads})
             s = cb.solve("full", T, r, threads, "vanilla")
